@@ -78,13 +78,14 @@ impl<'a> Norm<'a> {
         Some(self.raw_stmt(&format!("assert(false); /*VX-CANARY {}*/", tag)))
     }
 
-    fn is_iter_chain(e: &Expr) -> bool {
+    fn is_iter_chain(&self, e: &Expr) -> bool {
         match e {
             Expr::MethodCall(mc) => {
-                if ITER_HEADS_M.contains(&mc.method.to_string().as_str()) {
+                let m = mc.method.to_string();
+                if ITER_HEADS_M.contains(&m.as_str()) || self.unit.iter_sources.iter().any(|x| x == &m) {
                     return true;
                 }
-                Self::is_iter_chain(&mc.receiver)
+                self.is_iter_chain(&mc.receiver)
             }
             Expr::Call(c) => {
                 if let Expr::Path(p) = &*c.func {
@@ -94,7 +95,7 @@ impl<'a> Norm<'a> {
                 }
                 false
             }
-            Expr::Paren(p) => Self::is_iter_chain(&p.expr),
+            Expr::Paren(p) => self.is_iter_chain(&p.expr),
             _ => false,
         }
     }
@@ -381,8 +382,16 @@ impl<'a> VisitMut for Norm<'a> {
     }
 
     fn visit_block_mut(&mut self, b: &mut Block) {
-        let old = std::mem::take(&mut b.stmts);
-        for mut s in old {
+        let mut old: std::collections::VecDeque<Stmt> = std::mem::take(&mut b.stmts).into();
+        while let Some(mut s) = old.pop_front() {
+            // R-LETSPLIT: `recv.NAME(..).m(..)` on the statement's own receiver spine -> `let mut __tK = recv.NAME(..); __tK.m(..)`
+            if !self.spec.letsplit.is_empty() {
+                if let Some(first) = self.letsplit_stmt(&mut s) {
+                    old.push_front(s);
+                    old.push_front(first);
+                    continue;
+                }
+            }
             // pre-anchors
             let mut before: Vec<Stmt> = vec![];
             let mut after: Vec<Stmt> = vec![];
@@ -566,7 +575,7 @@ impl<'a> VisitMut for Norm<'a> {
                 let n = self.loop_no;
                 self.visit_expr_mut(&mut f.expr);
                 // iterator chain in head position
-                let mut chain = Self::is_iter_chain(&f.expr);
+                let mut chain = self.is_iter_chain(&f.expr);
                 if let Expr::MethodCall(mc) = &mut *f.expr {
                     if mc.args.is_empty() && mc.method == "vx_iter" {
                         mc.method = Ident::new("iter", mc.method.span());
@@ -879,6 +888,49 @@ impl<'a> VisitMut for Norm<'a> {
 }
 
 impl<'a> Norm<'a> {
+    /// R-LETSPLIT. Only the receiver spine of the statement's root expression is considered, so the bound
+    /// sub-expression is the first thing the statement evaluates anyway (evaluation order unchanged).
+    fn letsplit_stmt(&mut self, s: &mut Stmt) -> Option<Stmt> {
+        let root: &mut Expr = match s {
+            Stmt::Expr(e, _) => e,
+            Stmt::Local(l) => match &mut l.init { Some(init) if init.diverge.is_none() => &mut *init.expr, _ => return None },
+            _ => return None,
+        };
+        let names = self.spec.letsplit.clone();
+        // pass 1: depth of the first matching call below the root on the receiver spine
+        let mut depth = 0usize;
+        {
+            let mut cur: &Expr = root;
+            loop {
+                match cur {
+                    Expr::MethodCall(mc) => {
+                        if depth > 0 && names.iter().any(|n| mc.method == n.as_str()) { break; }
+                        cur = &mc.receiver;
+                    }
+                    Expr::Try(t) => cur = &t.expr,
+                    Expr::Paren(p) => cur = &p.expr,
+                    _ => return None,
+                }
+                depth += 1;
+            }
+        }
+        // pass 2: walk down again mutably
+        let mut cur: &mut Expr = root;
+        for _ in 0..depth {
+            cur = match cur {
+                Expr::MethodCall(mc) => &mut *mc.receiver,
+                Expr::Try(t) => &mut *t.expr,
+                Expr::Paren(p) => &mut *p.expr,
+                _ => return None,
+            };
+        }
+        let id = Ident::new(&format!("__t{}", self.tmp_no), Span::call_site());
+        self.tmp_no += 1;
+        let inner = std::mem::replace(cur, parse_quote!(#id));
+        self.bump("R-LETSPLIT");
+        Some(parse_quote!(let mut #id = #inner;))
+    }
+
     fn finish_loop(&mut self, n: usize, body: &mut Block) {
         let s0 = self.anchor(&format!("loop{}.start", n));
         let s1 = self.anchor(&format!("loop{}.end", n));
